@@ -95,6 +95,54 @@ def recover_3d(chk, s):
         chk.mismatch({"pool3d": True}, bad, what="3-D alignment does not recover the family member the target was synthesised with")
 
 
+def unsigned_point_sets(chk, pool):
+    """point sets stored as unsigned integers (pixel coordinates often are): every alignment class must fit the VALUES.  The
+    reference is the fit of the same values stored as float64; a disagreement that disappears when the values are stored as
+    int64 instead carries the signature of the known finding about unsigned arithmetic."""
+    import numpy as np
+    from menpo.shape import PointCloud, TriMesh
+
+    from ..adapters.alignment import _ctor
+
+    src = np.array(pool["src"], dtype=float)
+    shift = np.array([20.0, 30.0])
+    probe = np.array([[0.5, 1.0], [1.0, 2.5], [0.0, 2.0], [1.5, 1.5]]) + shift
+    tri = np.array([[0, 1, 2], [0, 2, 3]])
+    for cfg in ("translation", "uniformscale", "rotation", "similarity", "similarity_norot", "affine", "pwa", "tps"):
+        for ti in (1, 2, 6):
+            tgt = np.array(pool["targets"][ti - 1], dtype=float)
+            S, T = src + shift, tgt + shift
+
+            def fit(dt):
+                s_ = TriMesh(S.astype(dt), trilist=tri) if cfg == "pwa" else PointCloud(S.astype(dt))
+                return np.asarray(_ctor(cfg)(s_, PointCloud(T.astype(dt))).apply(probe), dtype=float)
+
+            try:
+                ref = fit(np.float64)
+            except Exception:
+                continue
+            for dt in (np.uint8, np.uint16, np.uint32):
+                chk.case(("unsigned", cfg, ti, np.dtype(dt).name))
+                chk.replayed += 1
+                try:
+                    got = fit(dt)
+                    ok = got.shape == ref.shape and np.allclose(got, ref, rtol=0, atol=1e-6)
+                    why = "is a different map"
+                except Exception as e:
+                    ok, why = False, "raises %s" % type(e).__name__
+                if ok:
+                    continue
+                try:
+                    as_int = fit(np.int64)
+                    int_ok = as_int.shape == ref.shape and np.allclose(as_int, ref, rtol=0, atol=1e-6)
+                except Exception:
+                    int_ok = False
+                chk.mismatch({"unsigned_point_sets": {"cfg": cfg, "target": ti, "dtype": np.dtype(dt).name}},
+                             {"what": "the fit to point sets stored as %s %s (the same values as float64 / int64 fit correctly)" % (np.dtype(dt).name, why)},
+                             kind="unsigned_point_set_arithmetic_wraps" if int_ok else None,
+                             what="alignment of unsigned-integer point sets")
+
+
 def run(chk, tier, seed, replay):
     chk.rule = ("case = (alignment class + options, target value) with the exact closed-form fit; (mesh, class, target kind) / "
                 "(mesh, kernel, options) for the interpolating warps; 3-D family images; distinct = distinct tuples; all non-trivial")
@@ -117,10 +165,12 @@ def run(chk, tier, seed, replay):
                 pool = c08.run_histories(chk, s, "fits", "MC_Alignment_fits.cfg")
                 optimality_in_code(chk, pool)
                 gpa_family(chk, pool)
+                unsigned_point_sets(chk, pool)
         return
     with tlc.Scratch("c07") as s:
         pool = c08.run_histories(chk, s, "fits", "MC_Alignment_fits.cfg")
         optimality_in_code(chk, pool)
+        unsigned_point_sets(chk, pool)
         run_cases(chk, "warps", "Warps", "MC_Warps_c04.cfg", s, warps.run_case)
         recover_3d(chk, s)
         gpa_family(chk, pool)
